@@ -398,7 +398,7 @@ def equil_cases(ex, name, D, N, L, dt, o):
                 roots.append([(f + k) / v, v])
         return R.GrayScott(D, L, N, dt, diffusivity_1=2e-3, diffusivity_2=1e-3, feed_rate=f, kill_rate=k, order=o), roots, 1.0
     if name == "SwiftHohenberg":
-        r, kc = 0.7, 1.0
+        r, kc = 0.9, 0.8  # not the defaults: k and k^2 differ
         q = r - kc * kc  # (r-k^2) u + u^2 - u^3 = 0 -> u = 0 or u^2 - u - q = 0
         roots = [[0.0]]
         if 1 + 4 * q >= 0:
